@@ -32,6 +32,18 @@ CHECKS = {
  "C12": dict(level="model_checking", design="4/C12", technique="TLA+ DhcpWire: TLC model-checks the RFC 3396 reference chunking over boundary lengths and validates traces of Dhcp::serialise / dhcppkt::parse / Fragment::new_udp4 / get_broadcast_flag (DhcpWireTrace)",
    text="TLC enumerates option multisets over the boundary lengths (0,1,2,254..257,509..512,765,1500), proves the reference chunking carries them and refutes the truncating encoder; every case plus random and decoder-image messages is encoded by the real code, walked by an independent TLV walker and decoded again, and TLC checks stream arithmetic, header and option equality; frames: lengths and both one's-complement checksums recomputed by TLC (incl. directed double-carry payloads); broadcast bit for sampled (quick) or all 65536 (thorough) flag values.",
    note="fidelity decided over projections (walker, splitter, digests) computed by the harness"),
+ "C04": dict(level="model_checking", design="4/C04", technique="TLA+ DnsWire: TLC model-checks the size-limited emission design over all small size vectors and validates traces of DNSPkt::serialise_with_size (DnsWireTrace); transport limits end-to-end when the DNS rig is available",
+   text="TLC checks the C04 clauses on the emission model for every record-size vector (and refutes the count-splice variant), then evaluates them on every response produced by the real serialise_with_size for messages whose unlimited encoding lands at limit-1/limit/limit+1 and far beyond, as parsed by an independent walker.",
+   note="function level decides well-formedness/limit/TC/prefix for the encoder; which limit the UDP and TCP listeners pass is covered by the end-to-end rig part"),
+ "C06": dict(level="model_checking", design="4/C06", technique="TLA+ DnsCache: exhaustive MC (TLC) of insert/lookup/tick/sweep interleavings + TLC trace validation (DnsCacheTrace) of the cache's own code under tokio's paused clock",
+   text="P06 (hit only for the same key within the smallest TTL, TTL = original - whole seconds elapsed, miss after expiry) holds on every transition of MC_DnsCache (two keys, TTL vectors with different minima incl. 0, half-second steps, sweeps; unbounded time) and is evaluated on every lookup of hundreds of scenarios driven through the real insert/lookup/expire code with exact virtual time, including TTLs 2^16, 2^31, 2^32-1 and near-miss keys built as wire queries.",
+   note="hook repeats three lines of handle_query; name equality read case-insensitively"),
+ "C14": dict(level="model_checking", design="4/C14", technique="TLA+ DnsWire (compression-pointer discipline) + TLC trace validation (DnsWireTrace) of DNSPkt::serialise walked by an independent walker and re-decoded by the crate's parser",
+   text="For structured messages up to 2000 records / 64 KiB (all name-bearing rdata types, shared suffixes at every depth, suffixes first written around offset 16384) and for mutated byte strings the decoder accepts: TLC checks every compression pointer (backwards, < 16384, to a label start) and the equality of the abstract messages (walker projection of the bytes vs the message built by the harness; crate decoder's result vs original).",
+   note="fidelity via projection (walker, digests); beyond 300 records pointer summaries instead of every pointer"),
+ "C16": dict(level="model_checking", design="4/C16", technique="TLA+ DnsRateLimit: exhaustive MC (TLC) of check/deplete interleavings (1 and 2 handlers) + TLC trace validation (RateLimitTrace) of the real token bucket under a virtual clock and of the real cookie validation",
+   text="TLC proves Bound and Quiet on the bucket model (one handler; two handlers with burst H*B) and refutes the strict bound under the check/deplete race and Quiet when the minimum charge exceeds the capacity; the real bucket is flooded and left idle under a virtual clock and judged against a fixed envelope; cookies issued under 4 keys x 3 client cookies x 4 client/server addresses are presented unchanged/mangled/cross-address under (current, previous) keys and against the live keys.",
+   note="envelope 65536 tokens + 4096/s; the two-bucket limiter and cost function are reached only end-to-end"),
 }
 NOT_APPLICABLE = []
 
